@@ -73,6 +73,7 @@ InsertAfter(s, k, t) == SubSeq(s, 1, k) \o t \o SubSeq(s, k + 1, Len(s))     \* 
 V(name, k, g, p) == [name |-> name, k |-> k, g |-> g, p |-> p]      \* k: constant value; g: owning graph; p: producer node
 N(op, dom, ins, out, subs, g, src) ==
    [op |-> op, dom |-> dom, ovl |-> "", ins |-> ins, out |-> out, subs |-> subs, g |-> g,
+    out2 |-> 0,             \* second output (only the call node of the two-output as_function rule has one)
     nx |-> 0,               \* the stale `next` pointer of an erased node
     src |-> src, rule |-> "", orig |-> TRUE]
 GR(kind, ins, owner, imports, fid) ==
@@ -80,6 +81,7 @@ GR(kind, ins, owner, imports, fid) ==
     imports |-> imports, ctr |-> 0, known |-> {}, fid |-> fid]
 NOFID == <<"", "", "">>
 
+Outs(n) == IF n.out2 = 0 THEN <<n.out>> ELSE <<n.out, n.out2>>
 Uses(mm, v) == {n \in 1..Len(mm.nodes) : \E i \in 1..Len(mm.nodes[n].ins) : mm.nodes[n].ins[i] = v}
 IsGOut(mm, v) == \E g \in 1..Len(mm.graphs) : \E i \in 1..Len(mm.graphs[g].outs) : mm.graphs[g].outs[i] = v
 InOrder(mm, n) == \E i \in 1..Len(mm.graphs[mm.nodes[n].g].order) : mm.graphs[mm.nodes[n].g].order[i] = n
@@ -118,13 +120,15 @@ Exec1(mm, nid, env) ==
                                  e1 == [v \in 1..Len(env) |-> IF \E i \in 1..Len(fg.ins) : fg.ins[i] = v
                                                              THEN env[n.ins[Max({i \in 1..Len(fg.ins) : fg.ins[i] = v})]] ELSE env[v]]
                                  e2 == RunSeq(mm, fg.order, 1, e1)
-                             IN [e2 EXCEPT ![n.out] = e2[fg.outs[1]]]
+                             IN IF n.out2 = 0 THEN [e2 EXCEPT ![n.out] = e2[fg.outs[1]]]
+                                ELSE [e2 EXCEPT ![n.out] = e2[fg.outs[1]], ![n.out2] = e2[fg.outs[2]]]
        [] n.op = "Neg" -> [env EXCEPT ![n.out] = -x(1)]
        [] n.op = "Relu" -> [env EXCEPT ![n.out] = IF x(1) > 0 THEN x(1) ELSE 0]
        [] n.op \in {"Identity", "IdentityB"} -> [env EXCEPT ![n.out] = x(1)]
        [] n.op \in {"Add", "Sum"} -> [env EXCEPT ![n.out] = x(1) + x(2)]
        [] n.op = "Sub" -> [env EXCEPT ![n.out] = x(1) - x(2)]
        [] n.op = "Mul" -> [env EXCEPT ![n.out] = x(1) * x(2)]
+       [] n.op = "Max" -> [env EXCEPT ![n.out] = IF x(1) > x(2) THEN x(1) ELSE x(2)]
        [] n.op = "If" -> LET b == mm.graphs[IF x(1) = 1 THEN n.subs[1] ELSE n.subs[2]]
                              e2 == RunSeq(mm, b.order, 1, env)
                          IN [e2 EXCEPT ![n.out] = e2[b.outs[1]]]
@@ -145,14 +149,16 @@ ToG(mm, g, byid) ==
    inits |-> [i \in 1..Len(gr.inits) |-> NameOf(mm, gr.inits[i], byid)],
    nodes |-> [k \in 1..Len(gr.order) |->
                 LET n == mm.nodes[gr.order[k]] IN
-                [ins |-> [i \in 1..Len(n.ins) |-> NameOf(mm, n.ins[i], byid)], outs |-> <<NameOf(mm, n.out, byid)>>,
+                [ins |-> [i \in 1..Len(n.ins) |-> NameOf(mm, n.ins[i], byid)], outs |-> [i \in 1..Len(Outs(n)) |-> NameOf(mm, Outs(n)[i], byid)],
                  subs |-> [j \in 1..Len(n.subs) |-> ToG(mm, n.subs[j], byid)], dom |-> n.dom]],
    outputs |-> [i \in 1..Len(gr.outs) |-> NameOf(mm, gr.outs[i], byid)]]
 \* names: unique within a graph and distinct from every name of the graphs it is nested in (sibling bodies may reuse a
 \* name).  The ONNX checker only looks at the names defined BEFORE the enclosing node; ONNX Runtime also rejects a body
 \* name that an outer graph defines later ("graph must be in SSA form") when the body captures outer node outputs.
 RECURSIVE ScopedSSA(_, _)
-OwnNames(gg) == gg.inputs \o gg.inits \o [k \in 1..Len(gg.nodes) |-> gg.nodes[k].outs[1]]
+RECURSIVE NodeOutNames(_, _)
+NodeOutNames(nodes, k) == IF k > Len(nodes) THEN <<>> ELSE nodes[k].outs \o NodeOutNames(nodes, k + 1)
+OwnNames(gg) == gg.inputs \o gg.inits \o NodeOutNames(gg.nodes, 1)
 ScopedSSA(gg, outer) == /\ G!NoDup(OwnNames(gg))
                         /\ G!SeqSet(OwnNames(gg)) \cap outer = {}
                         /\ \A k \in 1..Len(gg.nodes) : \A j \in 1..Len(gg.nodes[k].subs) :
@@ -180,9 +186,14 @@ WFnames(mm) == WFscoped(mm) /\ WFssa(mm)
 (*   dbl      Add(x, x)          -> Mul(x, INIT(2))       new initializer named <x>_two             *)
 (*   fn       Add(Neg(x), y)     -> custom::NegAdd(x, y)  as_function (commute: Add(y, Neg(x)))     *)
 (*   pair     (Sub(x,y), Add(x,y)) -> (Add(x, Neg(y)), Sum(y, x))   two output nodes                *)
+(*   ext      Relu(x)            -> ext::MyRelu(x)        a domain the host does not import; MyRelu *)
+(*                                                        is a model-local function of the host     *)
+(*   dag      a=Neg(x); b=Relu(a); Add(a,b) -> custom::NegReluAdd(x)   as_function, DAG pattern with *)
+(*   dagr     a=Neg(x); b=Relu(a); Add(b,a) -> custom::NegReluAdd(x)   a shared interior value       *)
+(*   dagm     a=Neg(x); (Relu(a), Identity(a)) -> custom::NegDual(x)   as_function, two outputs      *)
 Removes(r) == r # "keep"
-AsFunction(r) == r = "fn"
-Commutable(r) == r \in {"mul1", "addsum", "dbl", "fn", "pair"}     \* patterns holding one commutative node
+AsFunction(r) == r \in {"fn", "dag", "dagr", "dagm"}
+Commutable(r) == r \in {"mul1", "addsum", "dbl", "fn", "pair", "dag", "dagr"}     \* patterns holding one commutative node
 Variants(r, commute) == IF commute /\ Commutable(r) THEN << <<r, FALSE>>, <<r, TRUE>> >> ELSE << <<r, FALSE>> >>
 RECURSIVE RVFrom(_, _, _)
 RVFrom(rules, k, commute) == IF k > Len(rules) THEN <<>> ELSE Variants(rules[k], commute) \o RVFrom(rules, k + 1, commute)
@@ -220,6 +231,28 @@ MatchV(mm, nid, r, sw, devs) ==
                       \* a pattern variable bound to a value the match deletes: the design declines
                       /\ (n.ins[i2] # v \/ "var_binds_removed_intermediate" \in devs)
                    THEN Mt(<<nid, p>>, mm.nodes[p].ins[1], n.ins[i2], <<n.out>>) ELSE NoMatch
+         [] r = "ext" -> IF n.op = "Relu" THEN Mt(<<nid>>, n.ins[1], 0, <<n.out>>) ELSE NoMatch
+         [] r \in {"dag", "dagr"} ->
+              IF n.op # "Add" THEN NoMatch
+              ELSE LET ia == IF (r = "dag") # sw THEN 1 ELSE 2          \* operand position of a
+                       ib == 3 - ia
+                       va == n.ins[ia]
+                       vb == n.ins[ib]
+                       pa == InnerNode(mm, va, n.g, "Neg")
+                       pb == InnerNode(mm, vb, n.g, "Relu") IN
+                   IF pa # 0 /\ pb # 0 /\ mm.nodes[pb].ins[1] = va
+                      /\ RemovableInter(mm, va, {nid, pb}) /\ RemovableInter(mm, vb, {nid})
+                   THEN Mt(IF ia = 1 THEN <<nid, pa, pb>> ELSE <<nid, pb, pa>>, mm.nodes[pa].ins[1], 0, <<n.out>>) ELSE NoMatch
+         [] r = "dagm" ->
+              IF n.op # "Relu" THEN NoMatch
+              ELSE LET va == n.ins[1]
+                       pa == InnerNode(mm, va, n.g, "Neg")
+                       ord == mm.graphs[n.g].order
+                       Q == {k \in 1..Len(ord) : LET q == mm.nodes[ord[k]] IN q.op = "Identity" /\ q.dom = "" /\ q.ins[1] = va} IN
+                   IF pa = 0 \/ Q = {} THEN NoMatch
+                   ELSE LET q == ord[Min(Q)] IN
+                        IF RemovableInter(mm, va, {nid, q})
+                        THEN Mt(<<nid, pa, q>>, mm.nodes[pa].ins[1], 0, <<n.out, mm.nodes[q].out>>) ELSE NoMatch
          [] r = "pair" ->
               IF n.op # "Sub" THEN NoMatch
               ELSE LET ord == mm.graphs[n.g].order
@@ -251,12 +284,18 @@ MakeDelta(mm, r, mt) ==
              vals |-> <<V(mm.vals[x].name \o "_two", 2, 0, 0), V("", NC, 0, nn + 1)>>, outs |-> <<nv + 2>>, inits |-> <<nv + 1>>, doms |-> {""}]
        [] r = "fn" ->
             [nodes |-> <<NewNode("NegAdd", "custom", <<x, y>>, nv + 1, r)>>, vals |-> <<U(1)>>, outs |-> <<nv + 1>>, inits |-> <<>>, doms |-> {"custom"}]
+       [] r = "ext" ->
+            [nodes |-> <<NewNode("MyRelu", "ext", <<x>>, nv + 1, r)>>, vals |-> <<U(1)>>, outs |-> <<nv + 1>>, inits |-> <<>>, doms |-> {"ext"}]
+       [] r \in {"dag", "dagr"} ->
+            [nodes |-> <<NewNode("NegReluAdd", "custom", <<x>>, nv + 1, r)>>, vals |-> <<U(1)>>, outs |-> <<nv + 1>>, inits |-> <<>>, doms |-> {"custom"}]
+       [] r = "dagm" ->
+            [nodes |-> <<[NewNode("NegDual", "custom", <<x>>, nv + 1, r) EXCEPT !.out2 = nv + 2]>>, vals |-> <<U(1), U(1)>>, outs |-> <<nv + 1, nv + 2>>,
+             inits |-> <<>>, doms |-> {"custom"}]
        [] r = "pair" ->
             [nodes |-> <<NewNode("Neg", "", <<y>>, nv + 1, r), NewNode("Add", "", <<x, nv + 1>>, nv + 2, r), NewNode("Sum", "", <<y, x>>, nv + 3, r)>>,
              vals |-> <<U(1), U(2), U(3)>>, outs |-> <<nv + 2, nv + 3>>, inits |-> <<>>, doms |-> {""}]
 \* _update_opset_imports(graph_or_function) and (model.graph): a domain not imported yet is imported with version 1
-SortedDoms(doms, imps) == LET miss == {d \in doms : \A i \in 1..Len(imps) : imps[i][1] # d} IN
-                          IF miss = {} THEN <<>> ELSE IF miss = {""} THEN <<"">> ELSE IF miss = {"custom"} THEN <<"custom">> ELSE <<"", "custom">>
+SortedDoms(doms, imps) == SelectSeq(<<"", "custom", "ext">>, LAMBDA d : d \in doms /\ \A i \in 1..Len(imps) : imps[i][1] # d)
 AddImports(imps, doms) == imps \o [i \in 1..Len(SortedDoms(doms, imps)) |-> <<SortedDoms(doms, imps)[i], 1>>]
 
 -----------------------------------------------------------------------------
@@ -322,7 +361,10 @@ SpliceModel(mm, g, root, p, devs) ==
                                                     ELSE @[v]]]
       m2 == Redirect(m1, olds, news)
       at == InsertionIndex(mm, g, root, p.mt, devs)
-      m3 == NameNew([m2 EXCEPT !.graphs[g].order = InsertAfter(@, at, p.newn)], g, p.newn, 1)
+      m3a == NameNew([m2 EXCEPT !.graphs[g].order = InsertAfter(@, at, p.newn)], g, p.newn, 1)
+      second == {m3a.nodes[n].out2 : n \in SeqSet(p.newn)} \ {0}
+      m3 == [m3a EXCEPT !.graphs[g].known = @ \cup {m3a.vals[v].name : v \in second},
+                        !.vals = [v \in 1..Len(@) |-> IF v \in second THEN [@[v] EXCEPT !.g = g] ELSE @[v]]]
       \* every new node is tagged with the rule name; then the metadata of the matched nodes is merged in: keys
       \* the new node lacks are taken from the first matched node that has them (src), rule tags are joined
       rootsrc == mm.nodes[p.mt.nodes[1]].src
@@ -373,7 +415,7 @@ DCEGraph(mm, g, ord, k) ==
   IF k = 0 THEN mm
   ELSE LET n == ord[k]
            nd == mm.nodes[n] IN
-       IF Uses(mm, nd.out) = {} /\ nd.out \notin SeqSet(mm.graphs[g].outs)
+       IF \A o \in SeqSet(Outs(nd)) : Uses(mm, o) = {} /\ o \notin SeqSet(mm.graphs[g].outs)
        THEN DCEGraph(Erase(mm, n), g, ord, k - 1)
        ELSE LET m1 == IF Len(nd.subs) >= 1 THEN DCEGraph(mm, nd.subs[1], mm.graphs[nd.subs[1]].order, Len(mm.graphs[nd.subs[1]].order)) ELSE mm
                 m2 == IF Len(nd.subs) >= 2 THEN DCEGraph(m1, nd.subs[2], m1.graphs[nd.subs[2]].order, Len(m1.graphs[nd.subs[2]].order)) ELSE m1
@@ -424,7 +466,7 @@ NFSubs(mm, st, subs, k, devs) ==
 NFNodes(mm, st, ord, k, devs) ==
   IF k > Len(ord) THEN st
   ELSE LET n == mm.nodes[ord[k]]
-           s1 == NFValue(NFValues(st, n.ins, 1), n.out)
+           s1 == NFValues(NFValues(st, n.ins, 1), Outs(n), 1)
        IN NFNodes(mm, NFSubs(mm, s1, n.subs, 1, devs), ord, k + 1, devs)
 NFGraph(mm, st, g, devs) ==
   LET gr == mm.graphs[g]
@@ -457,9 +499,10 @@ Cands ==
   IN LastOuts(m, g, 1) \cup LastOuts(m, g, 2) \cup outer \cup carried \cup {IA, IB}
 CandsU == Cands \ {IB}
 Primary == LET g == Top.g IN IF LastOuts(m, g, 1) # {} THEN LastOuts(m, g, 1) ELSE {IA}
-Unary == {"Neg", "Relu", "Identity", "Mul1", "Mul1c", "Mul3", "I_negneg"}
+Unary == {"Neg", "Relu", "Identity", "Mul1", "Mul1c", "Mul3", "I_negneg", "I_dag", "I_dagr", "I_dagm"}
 \* host-building steps.  Besides single nodes there are INSTANCE steps (a whole instance of a pattern, C06 style):
 \*   I_negneg(x) = Neg(Neg(x))      I_fn(x,y) = Add(Neg(x), y)      I_fnc(x,y) = Add(y, Neg(x))
+\*   I_dag(x) = n=Neg(x); r=Relu(n); Add(n,r)    I_dagr: Add(r,n)    I_dagm(x) = n=Neg(x); Relu(n); Identity(n)
 \*   I_pair(x,y) = Sub(x,y); Add(x,y)    I_pairr(x,y) = Add(x,y); Sub(x,y)    I_pairc(x,y) = Add(x,y); Relu(that); Sub(x,y)
 ArgChoices(op) ==
   IF op \in Unary THEN {<<x>> : x \in CandsU}
@@ -476,6 +519,9 @@ Steps(op, a, v1) ==          \* v1: the id the first new value will get
     [] op = "I_negneg" -> << <<"Neg", <<a[1]>>>>, <<"Neg", <<v1>>>> >>
     [] op = "I_fn" -> << <<"Neg", <<a[1]>>>>, <<"Add", <<v1, a[2]>>>> >>
     [] op = "I_fnc" -> << <<"Neg", <<a[1]>>>>, <<"Add", <<a[2], v1>>>> >>
+    [] op = "I_dag" -> << <<"Neg", <<a[1]>>>>, <<"Relu", <<v1>>>>, <<"Add", <<v1, v1 + 1>>>> >>
+    [] op = "I_dagr" -> << <<"Neg", <<a[1]>>>>, <<"Relu", <<v1>>>>, <<"Add", <<v1 + 1, v1>>>> >>
+    [] op = "I_dagm" -> << <<"Neg", <<a[1]>>>>, <<"Relu", <<v1>>>>, <<"Identity", <<v1>>>> >>
     [] op = "I_pair" -> << <<"Sub", a>>, <<"Add", a>> >>
     [] op = "I_pairr" -> << <<"Add", a>>, <<"Sub", a>> >>
     [] op = "I_pairc" -> << <<"Add", a>>, <<"Relu", <<v1>>>>, <<"Sub", a>> >>
@@ -545,7 +591,7 @@ CloseLoop ==
   /\ UNCHANGED <<phase, cfg, eng, h>>
 
 \* names a deserialised graph registers with its NameAuthority
-KnownNames(mm, g) == {mm.vals[v].name : v \in SeqSet(mm.graphs[g].ins) \cup SeqSet(mm.graphs[g].inits) \cup {mm.nodes[n].out : n \in SeqSet(mm.graphs[g].order)}}
+KnownNames(mm, g) == {mm.vals[v].name : v \in SeqSet(mm.graphs[g].ins) \cup SeqSet(mm.graphs[g].inits) \cup UNION {SeqSet(Outs(mm.nodes[n])) : n \in SeqSet(mm.graphs[g].order)}}
 \* is there a (node, rule variant) the DESIGN would rewrite
 Applicable(mm, n, r, sw) == MatchV(mm, n, r, sw, {}).ok /\ ~(r = "dbl" /\ mm.graphs[mm.nodes[n].g].kind = "func")
 AnyMatch(mm) == \E n \in LiveNodes(mm) : \E i \in 1..Len(RV) : Applicable(mm, n, RV[i][1], RV[i][2])
@@ -574,7 +620,7 @@ SetF(f) == [eng EXCEPT !.st[Len(eng.st)] = f]
 
 \* rule sets in which some deviation can be reached: for them the DESIGN (devs = {}) and the implementation
 \* model (devs = Deviations) are both explored from the same host; elsewhere the two coincide
-DevProne == \E i \in 1..Len(cfg.rules) : cfg.rules[i] \in {"dbl", "fn", "pair"}
+DevProne == \E i \in 1..Len(cfg.rules) : cfg.rules[i] \in {"dbl", "fn", "pair", "ext", "dag", "dagr", "dagm"}
 Devs == eng.devs
 Begin ==          \* apply_to_model: the main graph first, then the functions that existed before
   /\ phase = "begin"
@@ -705,7 +751,18 @@ Cleanup ==        \* rewrite(): RemoveUnusedNodesPass, RemoveUnusedFunctionsPass
   /\ UNCHANGED <<cfg, bs, eng>>
 
 -----------------------------------------------------------------------------
-InitModel(rs) ==
+\* the host of rule "ext" carries the model-local function ext::MyRelu(x) = Max(x, Sub(x, x)) (no operator of any pattern);
+\* the model does NOT import the domain "ext" (nothing calls it yet)
+WithExtFn(mm) ==
+  LET nv == Len(mm.vals)
+      nn == Len(mm.nodes)
+      fg == Len(mm.graphs) + 1
+      g == [GR("func", <<nv + 1>>, 0, << <<"", 18>> >>, <<"ext", "MyRelu", "">>) EXCEPT !.order = <<nn + 1, nn + 2>>, !.outs = <<nv + 3>>] IN
+  [mm EXCEPT !.vals = @ \o <<V("ex", NC, fg, 0), V("ez", NC, fg, nn + 1), V("ey", NC, fg, nn + 2)>>,
+             !.nodes = @ \o <<N("Sub", "", <<nv + 1, nv + 1>>, nv + 2, <<>>, fg, "e1"), N("Max", "", <<nv + 1, nv + 2>>, nv + 3, <<>>, fg, "e2")>>,
+             !.graphs = Append(@, g), !.funcs = Append(@, fg)]
+HasExt(rs) == \E i \in 1..Len(rs.rules) : rs.rules[i] = "ext"
+InitModel0(rs) ==
   LET base == <<V("a", NC, 1, 0), V("b", NC, 1, 0), V("c", NC, 1, 0), V("one", 1, 1, 0), V("trip", 2, 1, 0), V("ctrue", 1, 1, 0),
                 V(IF rs.clash THEN "a_two" ELSE "three", 3, 1, 0)>>
       main == GR("main", <<A, B, C>>, 0, << <<"", 18>> >>, NOFID) IN
@@ -715,6 +772,7 @@ InitModel(rs) ==
         graphs |-> <<[main EXCEPT !.order = <<1>>, !.outs = <<8>>, !.imports = << <<"", 18>>, <<"local", 1>> >>],
                      GR("func", <<9, 10, 11>>, 0, << <<"", 18>> >>, <<"local", "F", "">>)>>,
         funcs |-> <<2>>]
+InitModel(rs) == IF HasExt(rs) THEN WithExtFn(InitModel0(rs)) ELSE InitModel0(rs)
 Init == /\ phase = "build"
         /\ cfg \in RuleSets
         /\ m = InitModel(cfg)
@@ -800,7 +858,7 @@ GJ(mm, g) ==
    nodes |-> [k \in 1..Len(gr.order) |->
                 LET n == mm.nodes[gr.order[k]] IN
                 [id |-> gr.order[k], op |-> n.op, dom |-> n.dom, ovl |-> n.ovl, ins |-> [i \in 1..Len(n.ins) |-> mm.vals[n.ins[i]].name],
-                 out |-> mm.vals[n.out].name, subs |-> [j \in 1..Len(n.subs) |-> GJ(mm, n.subs[j])], src |-> n.src, rule |-> n.rule]]]
+                 out |-> mm.vals[n.out].name, out2 |-> IF n.out2 = 0 THEN "" ELSE mm.vals[n.out2].name, subs |-> [j \in 1..Len(n.subs) |-> GJ(mm, n.subs[j])], src |-> n.src, rule |-> n.rule]]]
 MJ(mm) == [graph |-> GJ(mm, 1), imports |-> mm.graphs[1].imports,
            funcs |-> [i \in 1..Len(mm.funcs) |-> [fid |-> mm.graphs[mm.funcs[i]].fid, imports |-> mm.graphs[mm.funcs[i]].imports, graph |-> GJ(mm, mm.funcs[i])]]]
 SortedWhy == IF h.why = {} THEN <<>> ELSE LET S == h.why IN
@@ -841,7 +899,13 @@ Q_fn       == {RS(<<"fn">>,                {"I_fn", "I_fnc", "Neg"},           c
               \cup {RS(<<"negneg", "fn">>, {"I_fn", "Neg"},                    X, 2, 1, X, X, X, X, X, X)}
 Q_pair     == {RS(<<"pair">>,              {"I_pair", "I_pairr", "I_pairc", "Relu"}, c, 2, 1, T, X, X, X, X, X) : c \in BOOLEAN}
               \cup {RS(<<"pair">>,         {"I_pair", "Relu"},                 X, 2, 1, T, X, T, X, T, X)}
-QuickSets == Q_negneg \cup Q_keep \cup Q_relurelu \cup Q_mul1 \cup Q_subneg \cup Q_addsum \cup Q_chain \cup Q_dbl \cup Q_fn \cup Q_pair
+\* replacement in a domain the model does not import (matches in the main graph, in If/Loop bodies, in a function)
+Q_ext      == {RS(<<"ext">>,               {"Relu", "Neg"},                    X, 2, 1, T, T, X, X, w, X) : w \in BOOLEAN}
+\* as_function over a DAG pattern with a shared interior value (both operand orders) and with two outputs
+Q_dag      == {RS(<<r>>,                   {"I_dag", "I_dagr", "Neg"},         X, 2, 1, X, X, X, X, w, T) : r \in {"dag", "dagr"}, w \in BOOLEAN}
+              \cup {RS(<<"dag">>,          {"I_dag", "I_dagr", "Neg"},         T, 2, 1, T, X, X, X, X, X)}
+              \cup {RS(<<"dagm">>,         {"I_dagm", "Neg"},                  X, 2, 1, X, X, X, X, w, X) : w \in BOOLEAN}
+QuickSets == Q_ext \cup Q_dag \cup Q_negneg \cup Q_keep \cup Q_relurelu \cup Q_mul1 \cup Q_subneg \cup Q_addsum \cup Q_chain \cup Q_dbl \cup Q_fn \cup Q_pair
 \* thorough: one more step everywhere, loops in more families, depth 2 and single-node alphabets for the cheap ones
 T_negneg   == {RS(<<"negneg">>,            {"Neg"},                            X, 4, 1, T, T, X, X, X, T),
                RS(<<"negneg">>,            {"Neg"},                            X, 5, 1, T, X, X, X, X, X),
@@ -865,7 +929,10 @@ T_pair     == {RS(<<"pair">>,              {"I_pair", "I_pairr", "I_pairc", "Rel
               \cup {RS(<<"pair">>,        {"Sub", "Add", "Relu"},             X, 3, 1, X, X, sh, X, X, X) : sh \in BOOLEAN}
               \cup {RS(<<"pair">>,        {"I_pair", "I_pairc", "Relu"},      X, 3, 1, T, X, T, X, T, X)}
               \cup {RS(<<"pair", "subneg">>, {"I_pair", "I_pairc", "Sub"},    X, 2, 1, T, X, X, X, X, X)}
-ThoroughSets == T_negneg \cup T_keep \cup T_relurelu \cup T_mul1 \cup T_subneg \cup T_chain \cup T_dbl \cup T_fn \cup T_pair
+T_ext      == {RS(rs,                      {"Relu", "Neg"},                    X, 3, 1, T, T, X, X, w, X) : rs \in {<<"ext">>, <<"ext", "negneg">>}, w \in BOOLEAN}
+T_dag      == {RS(<<r>>,                   {"I_dag", "I_dagr", "Neg", "Relu"}, c, 3, 1, T, X, X, X, w, T) : r \in {"dag", "dagr"}, c \in BOOLEAN, w \in BOOLEAN}
+              \cup {RS(<<"dagm">>,         {"I_dagm", "Neg", "Identity"},      X, 3, 1, T, X, X, X, w, X) : w \in BOOLEAN}
+ThoroughSets == T_ext \cup T_dag \cup T_negneg \cup T_keep \cup T_relurelu \cup T_mul1 \cup T_subneg \cup T_chain \cup T_dbl \cup T_fn \cup T_pair
 VacuitySets == {RS(<<"subneg">>, {"Sub"}, X, 2, 1, T, X, X, X, X, X), RS(<<"dbl">>, {"Add"}, X, 2, 1, X, X, X, X, X, X),
                 RS(<<"relurelu">>, {"Relu"}, X, 3, 1, X, X, X, X, X, X), RS(<<"pair">>, {"I_pairc"}, X, 1, 1, X, X, X, X, X, X)}
 \* sizing aid: `CONSTRAINT BuildOnly` + `INVARIANT CountHost` enumerates the hosts of a rule set without running the engine
